@@ -48,7 +48,8 @@ try:
                 if q.returncode != 1:
                     ok = False
                 try:
-                    os.remove(rp)
+                    if "/replays/known/" not in rp:  # never touch committed regression replays
+                        os.remove(rp)
                 except OSError:
                     pass
             if expect_fail != got_fail:
